@@ -72,7 +72,7 @@ def check(ID, n, checks):
         assert out.strip() == '', '/repo not clean: ' + out
         rc, out = sh('git -C /repo apply %s/patch%s.diff' % (O, n))
         assert rc == 0, out
-        env = {}
+        env = dict(VERIF_MUTANT='1')
         undo = lambda: sh('git -C /repo checkout -- .')
     try:
         for c in checks:
